@@ -450,3 +450,28 @@ Proof.
   rewrite Hch, Hsp in S. destruct (step_spec (Save es h s) 0 (abs d)) as [a' r'].
   destruct S as (_ & Ha & Hx). now subst.
 Qed.
+(* PROCESS DEATH INSIDE THE ENTRY LOOP OF A SAVE, THEN RESTART. The directory a process leaves behind when it is killed
+   before the slot record of entry number j is written - whether or not the payload of that entry (any part of it) has
+   arrived: a payload without its slot record is not part of any row - is the state of [save_fail .. (FEntry j _)].
+   Opening it again (Init) answers with: everything below the first new index, then the first j entries of the batch,
+   minus the prefix Init compacts (never beyond the snapshot index); hard state and snapshot are the old ones. In
+   particular every entry of an earlier, acknowledged Save that the batch does not overwrite is there. *)
+Theorem crash_in_loop_then_reopen : forall P, wf_params P = true -> forall d i0 Ac e0 r h s j rot,
+  dinvz P i0 d Ac -> valid_batch P e0 r (log_of d) -> (j < length (e0 :: r))%nat ->
+  let d1 := snd (save_fail VZeroSlots P (e0 :: r) h s (FEntry j rot) d) in
+  settled d1 ->
+  let d2 := reopen P d1 in
+  abs d2 = mkalog (drop_below (disk_first d2) (below_idx (e_index e0) (log_of d) ++ firstn j (e0 :: r))) (d_meta d)
+  /\ exists i2 Ac2, dinvz P i2 d2 Ac2.
+Proof.
+  intros P HP d i0 Ac e0 r h s j rot Iz Hvb Hj d1 Hset d2.
+  assert (Hrep : fst (save_fail VZeroSlots P (e0 :: r) h s (FEntry j rot) d) = true).
+  { unfold save_fail. apply Nat.ltb_lt in Hj. now rewrite Hj. }
+  destruct (fail_state_inv P HP d i0 Ac e0 r h s (FEntry j rot) Iz Hvb Hrep Hset) as (i1 & Ac1 & J).
+  destruct (failed_save_log P HP d i0 Ac e0 r h s (FEntry j rot) Iz Hvb) as [_ FL]. specialize (FL Hrep).
+  fold d1 in FL, J. unfold failed_log in FL. rewrite !abs_log in FL. cbn [a_ents a_meta] in FL. destruct FL as [L M].
+  pose proof (step_all_z P HP Reopen d1 i1 Ac1 J Logic.I) as S. unfold step_ok_z in S. cbn [step_disk step_spec] in S.
+  fold d2 in S. destruct S as (Inv & Ha & _). split; [|exact Inv].
+  rewrite Ha. change (r_first (dres P d2 Ok [] 0 None)) with (disk_first d2).
+  rewrite abs_log. cbn [a_ents a_meta]. now rewrite L, M.
+Qed.
